@@ -1,6 +1,6 @@
 (* C19 — Incentive payouts never exceed their funding and follow farmed share.
    Property theorems only; each is closed by a lemma proved in Proofs/GaugeProofs.v. *)
-From Comdex Require Import Lib.Base Lib.DecArith Lib.F64 Model.Gauge Proofs.GaugeProofs.
+From Comdex Require Import Lib.Base Lib.DecArith Lib.F64 Model.Gauge Proofs.GaugeProofs Proofs.GaugeStableProofs.
 
 (* the per-epoch allocations sum exactly to the deposit, there is one per epoch, and each is the
    floor or the floor + 1 of deposit / epochs.  Guards exactly as coded: deposit < epochs gives
@@ -314,3 +314,70 @@ Example c19_hook_error_example :
   (exists s', rstep s (Begin 86401 off) = Ok (s', [(3, 11, 1000000); (3, 21, 300)]) /\
      map x_avail (r_exts s') = [4000000; 700; 600] /\ map x_count (r_exts s') = [1; 1; 1] /\ r_bal s' 3 = 4001300).
 Proof. vm_compute. repeat split; eexists; repeat split. Qed.
+
+(* ---------------- stable-mint external reward programs (CombinePSMUserPositions, DistributeExtRewardStableVault) ---------------- *)
+
+(* one stable-mint program at one BeginBlocker (fix C19-F5: the eligible amount is capped by the total
+   minted): whatever the entries, the users' holdings, the total minted and the days left, the program
+   never books more than it has left, the users receive EXACTLY what is booked, custody falls by exactly
+   that, and the program's epoch record is advanced (at every call, due or not) *)
+Theorem c19_stable_program_safe : forall now h total recs bal x x' bal' paid,
+  stable_tick now h total recs bal x = Ok (x', bal', paid) -> 0 <= total -> recs_wf recs -> 0 <= sx_avail x ->
+  0 <= sx_avail x' <= sx_avail x /\ pay_total paid = sx_avail x - sx_avail x' /\ bal' = bal - pay_total paid /\
+  (0 <= bal -> 0 <= bal') /\ sx_denom x' = sx_denom x /\ sx_app x' = sx_app x /\ sx_count x' = sx_count x + 1 /\ sx_next x' = now + DAY.
+Proof. exact stable_tick_wf. Qed.
+Print Assumptions c19_stable_program_safe.
+
+(* CombinePSMUserPositions (every program of the app making its pass) only moves amounts between the
+   entries of a user: the sum of all entries of the app is unchanged and the keys stay distinct *)
+Theorem c19_stable_combine_total : forall h app all recs, NoDup (map skey recs) ->
+  rsum (combined_for h all app recs) = rsum recs /\ NoDup (map skey (combined_for h all app recs)).
+Proof. intros. apply combined_for_sum. assumption. Qed.
+Print Assumptions c19_stable_combine_total.
+
+(* custody over histories that INCLUDE stable-mint programs: after every history of gauge / swap-fee gauge /
+   locker / vault / lend / stable-mint program creations, BeginBlockers (all six steps of abci.go) at any
+   times and heights with any well-formed environment, and other credits, that does not meet class C19-F4
+   (lend programs), the rewards account holds at least the remainders of all gauges plus the available
+   rewards of all programs, stable-mint programs included, and no program's available rewards are negative *)
+Theorem c19_custody_stable : forall ops d, forallb op_wf2 ops = true -> run_clean2 rinit2 ops = true ->
+  let s := rrun2 rinit2 ops in
+  owed2 d s <= r_bal (r2_base s) d /\
+  holds_C19_custody2 d (r_bal (r2_base s) d) (r_gauges (r2_base s)) (r_exts (r2_base s)) (r2_sx s) = true.
+Proof. exact custody2_clean. Qed.
+Print Assumptions c19_custody_stable.
+
+(* regression, former finding C19-F5 (the history observed on the real keepers): a 1-day program of 1 000 000
+   and a 3-day program of 50 262 694 in one denom; one entry of 199 800 000 whose owner still holds it while
+   others have redeemed the total minted down to 10 390 105.  The share is capped at the whole: the first
+   program pays its 1 000 000 and is empty, the second pays a third (16 754 231); before the fix the first
+   paid 19 229 834 out of the second's coins and went to -18 229 834 *)
+Example c19_stable_regression :
+  let se := (10390105, [mkSRec 11 4 199800000 199800000]) in
+  let ops := [SCreate 1 4 1000000 1 1 0 1000000 true; SCreate 1 4 50262694 3 1 0 50262694 true;
+              Begin2 86401 (mkBenv [] [] []) 8 [se; se]] in
+  let s := rrun2 rinit2 ops in
+  forallb op_wf2 ops = true /\ run_clean2 rinit2 ops = true /\
+  map sx_avail (r2_sx s) = [0; 33508463] /\ map sx_count (r2_sx s) = [1; 1] /\ r_bal (r2_base s) 4 = 33508463 /\ owed2 4 s = 33508463 /\
+  (exists s', rstep2 (rrun2 rinit2 (firstn 2 ops)) (Begin2 86401 (mkBenv [] [] []) 8 [se; se]) = Ok (s', [(4, 11, 1000000); (4, 11, 16754231)])).
+Proof. vm_compute. repeat split. eexists. reflexivity. Qed.
+
+(* non-vacuity: a gauge, a locker program and a stable-mint program in one denom; three entries of user 11
+   (two old enough to be combined into one) and one of user 12; the program is due (a day has passed since
+   the previous BeginBlocker), pays 11 and 12 out of the shrinking remainder, and is counted; at the next
+   block nothing is due but the epoch record moves on; two blocks later it is deactivated *)
+Example c19_stable_example :
+  let recs := [mkSRec 11 3 100 1000; mkSRec 11 5 200 1000; mkSRec 11 9 50 1000; mkSRec 12 4 300 120] in
+  let ops := [Base (Create 4 100 2 0 0 43200 100 true); Base (ExtCreate 0 4 600 2 1 0 600 true); SCreate 1 4 9000 2 2 0 9000 true;
+              Begin2 86401 (mkBenv [FarmErr] [] [mkXenv 0 []]) 10 [(1000, recs)];
+              Begin2 86407 (mkBenv [FarmErr] [] [mkXenv 0 []]) 11 [(1000, recs)];
+              Begin2 200000 (mkBenv [FarmErr] [] [mkXenv 0 []]) 12 [(1000, recs)]] in
+  forallb op_wf2 ops = true /\ run_clean2 rinit2 ops = true /\
+  combined_for 10 (r2_sx (rrun2 rinit2 (firstn 3 ops))) 1 recs = [mkSRec 11 3 300 1000; mkSRec 11 9 50 1000; mkSRec 12 4 300 120] /\
+  (exists s', rstep2 (rrun2 rinit2 (firstn 3 ops)) (nth 3 ops (Base (Donate 0 0))) = Ok (s', [(4, 11, 1350); (4, 12, 459)]) /\
+     map sx_avail (r2_sx s') = [7191] /\ map sx_count (r2_sx s') = [1]) /\
+  (let s := rrun2 rinit2 ops in
+   map sx_avail (r2_sx s) = [7191] /\ map sx_active (r2_sx s) = [false] /\ map sx_count (r2_sx s) = [3] /\
+   r_bal (r2_base s) 4 = 7891 /\ owed2 4 s = 7891 /\
+   holds_C19_custody2 4 (r_bal (r2_base s) 4) (r_gauges (r2_base s)) (r_exts (r2_base s)) (r2_sx s) = true).
+Proof. vm_compute. repeat split. eexists. repeat split. Qed.
